@@ -1,5 +1,6 @@
 import MsiProofs.Props.C03
 import MsiProofs.Lemmas.RefineLoad
+import MsiProofs.Lemmas.GlobalInv
 /-
 C03, state level — `Insert::exec` and `Delete::exec` refine the relational insert and delete on
 the package state: what the new state reads as the table's rows is, as values, what the
@@ -27,5 +28,11 @@ def delete_then_load := @MsiProofs.RefineLoad.delete_then_load
 /-- rows read from a stream fit their columns; rows that fit are read back as written -/
 def readRows_rowOk := @MsiProofs.RowsOk.readRows_rowOk
 def write_read := @MsiProofs.RowsOk.write_read
+
+
+/-- the frame condition over the whole package: an insert or delete on one table leaves the rows
+every other table reads as, and the invariant, intact; a refused one changes nothing at all -/
+def history_inv := @MsiProofs.GlobalInv.history_inv
+def op_inv := @MsiProofs.GlobalInv.op_inv
 
 end MsiProofs.C03
